@@ -222,6 +222,17 @@ func runC17(c *Ctx) {
 	c.Rule("C17.readonly", "handleDiffs and Validate store nothing through either configuration; the only maps mutated are local maps made in the function; Current returns proto.Clone of the stored configuration")
 	c.Rule("C17.whole-compare", "handleDiffs (and same-package helpers it calls): every proto.Equal compares whole map elements of the two configurations (range values / map lookups), never a getter or field of them - a change in any part of a request or target must count as a change")
 	c.Rule("C17.valid-table", "Validate, per target entry: empty name, nil target, no address, empty request key, request key absent from the request map => non-nil error; none of these => the loop continues and nil is returned at the end")
+	c.Rule("C17.locked", "target.Config.configuration is read and written only with Config.mu held (lock audit over package target, requirements of unexported helpers discharged at their call sites): the revision gate, the diff and the commit of a load form one critical section - a gate evaluated before the lock admits a lower revision that arrives while a higher one is being applied")
+	{
+		fCfg, fMu := P.Field("target", "Config", "configuration"), P.Field("target", "Config", "mu")
+		if fCfg == nil || fMu == nil {
+			c.Unresolved("C17.locked", "target.Config.configuration / Config.mu")
+		} else {
+			la := NewLockAudit(c, "target", map[*types.Var]*types.Var{fCfg: fMu}, 2)
+			la.Report(func(kind string) string { return "C17.locked" })
+			c.Check(la.Accesses >= 3, "C17.locked", "target", "guarded accesses analysed", "", fmt.Sprintf("%d accesses of Config.configuration, %d directly under Config.mu, rest discharged at call sites", la.Accesses, la.Guarded))
+		}
+	}
 	c.Rule("C17.nil-handlers", "no handler field is invoked on a path where it is nil")
 
 	c17Extra(c, hd, val)
